@@ -29,6 +29,7 @@
 #include <yaclib_std/random>
 
 #include <spawn.h>
+#include <thread>
 #include <vector>
 
 extern char** environ;
@@ -300,42 +301,59 @@ void Apply(const RConfig& c) {
 }
 
 // one complete run of `prog` under a fresh scheduler; real_sleep_us: wall-clock noise inserted before the run
-Record RunOnce(Program prog, const RConfig& c, unsigned real_sleep_us, std::size_t heap_pad) {
+Record RunOnceHere(Program prog, const RConfig& c, bool apply_here) {
+  Record rec;
+  yaclib::fault::Scheduler sched;
+  yaclib::fault::Scheduler::Set(&sched);
+  if (apply_here) {
+    Apply(c);
+  }
+  u64 r0 = yaclib::fiber::GetFaultRandomCount();
+  u64 i0 = yaclib::GetInjectedCount();
+  g_ft.Reset();
+  g_ft.on = true;
+  Log log;
+  bool done = false;
+  {
+    yaclib_std::thread root([&] {
+      prog(log, 0, c.variant);
+      done = true;
+    });
+    if (!done) {
+      std::fprintf(stderr, "repro program deadlocked\n");
+      ChildExit(77);
+    }
+    root.join();
+  }
+  g_ft.on = false;
+  rec.trace_hash = g_ft.hash;
+  rec.trace_len = g_ft.len;
+  rec.ev_hash = log.ev_hash;
+  rec.ev_n = log.n;
+  rec.rand_delta = yaclib::fiber::GetFaultRandomCount() - r0;
+  rec.inj_delta = yaclib::GetInjectedCount() - i0;
+  rec.time_end = sched.GetTimeNs();
+  yaclib::fault::Scheduler::Set(nullptr);
+  return rec;
+}
+
+// `on_helper_thread`: the configuration (seed, frequencies, injector state) is applied by the calling thread, the
+// scheduler and the program then run on a freshly created OS thread - the shape of a harness with a watchdog thread.
+// The run must not depend on which OS thread hosts the scheduler.
+Record RunOnce(Program prog, const RConfig& c, unsigned real_sleep_us, std::size_t heap_pad, bool on_helper_thread = false) {
   void* pad = heap_pad != 0 ? std::malloc(heap_pad) : nullptr;
   if (real_sleep_us != 0) {
     usleep(real_sleep_us);
   }
   Record rec;
-  {
-    yaclib::fault::Scheduler sched;
-    yaclib::fault::Scheduler::Set(&sched);
+  if (on_helper_thread) {
     Apply(c);
-    u64 r0 = yaclib::fiber::GetFaultRandomCount();
-    u64 i0 = yaclib::GetInjectedCount();
-    g_ft.Reset();
-    g_ft.on = true;
-    Log log;
-    bool done = false;
-    {
-      yaclib_std::thread root([&] {
-        prog(log, 0, c.variant);
-        done = true;
-      });
-      if (!done) {
-        std::fprintf(stderr, "repro program deadlocked\n");
-        ChildExit(77);
-      }
-      root.join();
-    }
-    g_ft.on = false;
-    rec.trace_hash = g_ft.hash;
-    rec.trace_len = g_ft.len;
-    rec.ev_hash = log.ev_hash;
-    rec.ev_n = log.n;
-    rec.rand_delta = yaclib::fiber::GetFaultRandomCount() - r0;
-    rec.inj_delta = yaclib::GetInjectedCount() - i0;
-    rec.time_end = sched.GetTimeNs();
-    yaclib::fault::Scheduler::Set(nullptr);
+    std::thread host([&] {
+      rec = RunOnceHere(prog, c, false);
+    });
+    host.join();
+  } else {
+    rec = RunOnceHere(prog, c, true);
   }
   std::free(pad);
   return rec;
@@ -351,11 +369,12 @@ void InProcessCase(Ctx& ctx, int pi) {
   other.seed ^= 0x5a5a5a5a;
   std::size_t pad = 64 + ctx.rng.Below(5000);
   (void)RunOnce(kPrograms[(pi + 1) % 5], other, 0, pad);
-  Record b = RunOnce(kPrograms[pi], c, 0, pad * 3);
+  bool helper = ctx.rng.Coin();
+  Record b = RunOnce(kPrograms[pi], c, 0, pad * 3, helper);
   ctx.SetNontrivial(a.trace_len > 20 && a.inj_delta > 0);
   ctx.Observe(a.trace_hash);
-  ctx.Check(a == b, "rerun-differs", "C17", "same program, seed and configuration, two runs in one process: [%s] vs [%s]",
-            a.Str().c_str(), b.Str().c_str());
+  ctx.Check(a == b, "rerun-differs", "C17", "same program, seed and configuration, two runs in one process%s: [%s] vs [%s]",
+            helper ? " (the second one hosted by a helper OS thread)" : "", a.Str().c_str(), b.Str().c_str());
   ctx.Note(" -> %s", a.Str().c_str());
 }
 
@@ -580,7 +599,7 @@ int main(int argc, char** argv) {
     RConfig other = c;
     other.seed += 17;
     (void)RunOnce(kPrograms[(pi + 2) % 5], other, 500 + perturb % 3000, 100 + perturb % 7777);
-    Record r = RunOnce(kPrograms[pi], c, 300 + perturb % 2000, 1 + perturb % 3333);
+    Record r = RunOnce(kPrograms[pi], c, 300 + perturb % 2000, 1 + perturb % 3333, (perturb / 7) % 2 == 1);
     std::printf("REC %llx %llu %llx %llu %llu %llu %llu\n", (unsigned long long)r.trace_hash,
                 (unsigned long long)r.trace_len, (unsigned long long)r.ev_hash, (unsigned long long)r.ev_n,
                 (unsigned long long)r.rand_delta, (unsigned long long)r.inj_delta, (unsigned long long)r.time_end);
